@@ -85,6 +85,16 @@ func (w *World) FsmAnchors() *FsmA {
 					df = st.Field(i).Name()
 				}
 			}
+			if df == "" && bf != "" {
+				// the database behind an interface of the package that *pebble.DB satisfies
+				if dbT := pebbleDBPtr(w); dbT != nil {
+					for i := 0; i < st.NumFields(); i++ {
+						if it, ok := st.Field(i).Type().Underlying().(*types.Interface); ok && it.NumMethods() > 0 && types.Implements(dbT, it) {
+							df = st.Field(i).Name()
+						}
+					}
+				}
+			}
 			if bf != "" && df != "" {
 				a.Ctx, a.BatchFld, a.DBFld = nt, bf, df
 			}
@@ -280,4 +290,17 @@ func (a *FsmA) ROTxn() *ssa.Function {
 		return a.Lookup
 	}
 	return found
+}
+
+// pebbleDBPtr: the type *pebble.DB of the loaded program (nil if pebble is not loaded).
+func pebbleDBPtr(w *World) types.Type {
+	p := w.ByPath[pebblePath]
+	if p == nil || p.Types == nil {
+		return nil
+	}
+	tn, ok := p.Types.Scope().Lookup("DB").(*types.TypeName)
+	if !ok {
+		return nil
+	}
+	return types.NewPointer(tn.Type())
 }
